@@ -109,6 +109,8 @@ def attach_rexpy():
 
     def extract_post(self):
         """All of C03/C13 that can be read off the Extractor after extract()."""
+        if (self.dialect or 'perl') not in ('perl', 'portable', 'grep'):
+            return True                      # posix / java / ruby spellings are not readable by Python's re: no verdict
         EVALS['Extractor.extract'] += 1
         res = self.results
         rex = list(res.rex) if res is not None else []
